@@ -25,6 +25,7 @@ import sys
 import sysconfig
 import time
 import traceback
+import warnings
 
 from harness import common
 
@@ -38,6 +39,7 @@ REQUIRED = [
 ]
 
 NPROC = min(16, os.cpu_count() or 4)
+warnings.simplefilter("ignore", SyntaxWarning)
 DRV = os.path.join(common.LEAN_DIR, ".lake", "build", "bin", "drv_c16")
 
 
@@ -375,17 +377,19 @@ class ProgGen:
     if c == 6:
       kind = r.choice(["[%s]", "{%s}", "(%s)", "{1: %s}"])
       asyn = "async " if ctx.get("asyn") and r.random() < 0.4 else ""
+      ctx = dict(ctx, comp=True)
+      it0 = self.expr(d, ctx)
       cond = (" if " + self.expr(d, ctx)) if r.random() < 0.5 else ""
       second = (" for %s in %s" % (self.name(), self.expr(d, ctx))) if r.random() < 0.25 else ""
       body = self.expr(d, ctx)
       if kind == "{1: %s}":
-        return "{%s: %s %sfor %s in %s%s%s}" % (self.name(), body, asyn, self.name(), self.expr(d, ctx), second, cond)
-      return kind % ("%s %sfor %s in %s%s%s" % (body, asyn, self.name(), self.expr(d, ctx), second, cond))
+        return "{%s: %s %sfor %s in %s%s%s}" % (self.name(), body, asyn, self.name(), it0, second, cond)
+      return kind % ("%s %sfor %s in %s%s%s" % (body, asyn, self.name(), it0, second, cond))
     if c == 7 and ctx.get("asyn"):
       return "(await %s)" % self.expr(d, ctx)
-    if c == 8 and ctx.get("fn") and ctx.get("gen") and not ctx.get("nocontrol"):
+    if c == 8 and ctx.get("fn") and ctx.get("gen") and not ctx.get("nocontrol") and not ctx.get("comp"):
       return "(yield %s)" % self.expr(d, ctx)
-    if c == 9:
+    if c == 9 and not ctx.get("comp"):
       return "(%s := %s)" % (self.name(), self.expr(d, ctx))
     if c == 10:
       return "f'{%s}-{%s!r}'" % (self.name(), self.name())
@@ -394,7 +398,7 @@ class ProgGen:
     if c == 12:
       return "%s.%s" % (self.name(), r.choice(["attr", "m()", "p"]))
     if c == 13:
-      return "not %s" % self.expr(d, ctx)
+      return "(not %s)" % self.expr(d, ctx)
     if c == 14:
       return "%s < %s <= %s" % (self.expr(d, ctx), self.expr(d, ctx), self.expr(d, ctx))
     if c == 15:
@@ -410,7 +414,7 @@ class ProgGen:
   def pattern(self):
     r = self.r
     return r.choice(["1", "'s'", "None", "[p, q]", "[p, *rest]", "{'k': v}", "C(u=1)", "int(w)", "1 | 2",
-                     "[1, 2] as pr", "(p, q) if p", "_", "str() | bytes()", "{'k': [e, _]}"])
+                     "[1, 2] as pr", "(p, q) if p", "str() | bytes()", "{'k': [e, _]}", "_ if g()"])
 
   def stmt(self, d, ctx, ind):
     r = self.r
@@ -448,14 +452,14 @@ class ProgGen:
         out += [ind + "else:"] + self.block(sub, ctx, i2)
       return out
     if c in (9, 10):
-      out = [ind + "while %s:" % r.choice([e(), "True", "1", self.name()])] + self.block(sub, dict(ctx, loop=True, nocontrol=False), i2)
+      out = [ind + "while %s:" % r.choice([e(), "True", "1", self.name()])] + self.block(sub, dict(ctx, loop=True), i2)
       if r.random() < 0.3:
         out += [ind + "else:"] + self.block(sub, ctx, i2)
       return out
     if c in (11, 12, 13):
       asyn = "async " if ctx.get("asyn") and r.random() < 0.6 else ""
       tgt = r.choice([self.name(), "%s, %s" % (self.name(), self.name())])
-      out = [ind + "%sfor %s in %s:" % (asyn, tgt, e())] + self.block(sub, dict(ctx, loop=True, nocontrol=False), i2)
+      out = [ind + "%sfor %s in %s:" % (asyn, tgt, e())] + self.block(sub, dict(ctx, loop=True), i2)
       if r.random() < 0.3:
         out += [ind + "else:"] + self.block(sub, ctx, i2)
       return out
@@ -483,8 +487,10 @@ class ProgGen:
       return [ind + "%swith %s:" % (asyn, items)] + self.block(sub, ctx, i2)
     if c == 20:
       out = [ind + "match %s:" % e()]
-      for _ in range(r.randint(1, 4)):
+      for _ in range(r.randint(1, 3)):
         out += [i2 + "case %s:" % self.pattern()] + self.block(sub, ctx, i2 + "  ")
+      if r.random() < 0.5:
+        out += [i2 + "case %s:" % r.choice(["_", "other"])] + self.block(sub, ctx, i2 + "  ")
       return out
     if c in (21, 22, 23):
       self.fn += 1
@@ -498,7 +504,10 @@ class ProgGen:
         yl = r.choice(["yield " + self.name(), "yield", "%s = yield %s" % (self.name(), self.name())])
         if not asyn and r.random() < 0.5:
           yl = r.choice(["yield from " + self.name(), "%s = yield from g(%s)" % (self.name(), self.name())])
-        body.insert(r.randrange(len(body) + 1), i2 + yl)
+        pos = [k for k, l in enumerate(body) if l.startswith(i2) and not l.startswith(i2 + " ") and
+               not (k and body[k - 1].strip().startswith("@")) and
+               l.strip().split(" ")[0].rstrip(":") not in ("elif", "else", "except", "except*", "finally", "case")]
+        body.insert(r.choice(pos + [len(body)]), i2 + yl)
       return deco + [ind + "%sdef fn%d(%s):" % ("async " if asyn else "", self.fn, args)] + body
     if c == 24:
       self.fn += 1
@@ -511,9 +520,11 @@ class ProgGen:
         return [ind + "yield " + e()]
       return [ind + r.choice(["yield " + e(), "yield from " + e(), "%s = yield" % self.name()])]
     if c == 27:
-      return [ind + "%s = lambda %s: %s" % (self.name(), self.name(), e())]
+      return [ind + "%s = lambda %s: %s" % (self.name(), self.name(),
+                                            self.expr(2, dict(fn=True, gen=False, asyn=False, loop=False)))]
     if c == 28:
-      return [ind + "%s = [%s for %s in %s if %s]" % (self.name(), e(), self.name(), e(), e())]
+      ec = lambda: self.expr(2, dict(ctx, comp=True))
+      return [ind + "%s = [%s for %s in %s if %s]" % (self.name(), ec(), self.name(), ec(), ec())]
     if c == 29:
       return [ind + "%s: int = %s" % (self.name(), e())]
     if c == 30:
